@@ -18,6 +18,9 @@ pub struct Level {
     pub decls: usize,
     /// flaky ephemerals: every single Ephemeral job gets a turn at being flaky
     pub flaky: bool,
+    /// this level's edits are also applied right after an interrupted (failed / aborted)
+    /// evaluation of the previous level, instead of only after its failure-free resume
+    pub after_fail: bool,
 }
 
 #[derive(Clone, Debug)]
@@ -223,6 +226,10 @@ impl<'a> ChainRun<'a> {
                 } else {
                     // failure-free resume with nothing else changed
                     self.resume(&w3, &end, twin_line, depth, &pk, 0, &BTreeSet::new());
+                    // ... or the project is edited before it is evaluated again
+                    if self.spec.levels.get(depth + 1).map(|l| l.after_fail).unwrap_or(false) {
+                        self.level(&w3, depth + 1, Some((end.line, false)), &format!("{}>{}!", pk, end.sig));
+                    }
                 }
             }
         }
@@ -303,6 +310,8 @@ pub fn run_universe(
         let mut g0 = g.clone();
         if conv == Conv::Ids {
             g0.normalise_ids();
+        } else {
+            g0.normalise_names();
         }
         let w = World::new(g0, *cmp, conv);
         let mut cr = ChainRun {
